@@ -129,7 +129,7 @@ pub fn render_chunk(text: &str, lay: &Layout, letters: &[&str], specs: &[VSpec],
 
 /// Small hand-written catalogue: constructs the corpus under-represents in unformatted shape
 /// (alignment groups next to comments, long lines, nested lists with/without trailing commas).
-pub const CATALOGUE: [(&str, &str); 11] = [
+pub const CATALOGUE: [(&str, &str); 12] = [
     ("cat/call_args", "module A {\n    function f (a: input logic<8>, b: input logic<8>, c: input logic<8>) -> logic<8> {\n        return a + b + c;\n    }\n    var x: logic<8>;\n    assign x = f(1, f(2, 3, 4), f(a: 5, b: 6, c: 7,));\n}\n"),
     ("cat/align_comments", "module A (\n    a: input logic, // first\n    bbbbbb: output logic<8>, /* second */\n    c: input logic<2>,\n) {\n    var x: logic;\n    var yyyyy: logic<8>; // y\n    assign x = a;\n    assign yyyyy = {a repeat 8};\n    assign bbbbbb = yyyyy;\n}\n"),
     ("cat/long_expr", "module A {\n    var aaaaaaaaaaaaaaaa: logic<32>;\n    var bbbbbbbbbbbbbbbb: logic<32>;\n    var c: logic<32>;\n    assign c = aaaaaaaaaaaaaaaa + bbbbbbbbbbbbbbbb * aaaaaaaaaaaaaaaa - bbbbbbbbbbbbbbbb + aaaaaaaaaaaaaaaa + bbbbbbbbbbbbbbbb + aaaaaaaaaaaaaaaa;\n    assign aaaaaaaaaaaaaaaa = 1;\n    assign bbbbbbbbbbbbbbbb = 2;\n}\n"),
@@ -140,6 +140,9 @@ pub const CATALOGUE: [(&str, &str); 11] = [
     ("cat/generics", "module A::<T: u32 = 1, U: u32 = 2,> {\n    const X: u32 = T + U;\n}\nmodule B {\n    inst u: A::<3, 4>;\n    inst v: A::<3,>;\n}\n"),
     ("cat/attribute_doc", "/// doc é\n/// more\n#[allow(unused_variable, missing_reset_statement,)]\nmodule A {\n    #[sv(\"keep\")]\n    var a: logic;\n    /* block\n       comment */\n    assign a = 0; // tail\n}\n"),
     ("cat/unary_after_binary", "module A {\n    var a: logic<8>;\n    var b: logic<8>;\n    var c: logic<8>;\n    assign a = b - -c;\n    assign b = a & &c | |a ^ ~^c;\n    assign c = a + +b - -(-a);\n}\n"),
+    // multiple-import lists with and without a trailing comma, on one line and wrapped: the optional
+    // trailing comma is skipped by the walker and re-created, so comments next to it are at risk
+    ("cat/import_lists", "package P {\n    const A: u32 = 1;\n    const B: u32 = 2;\n    const C: u32 = 3;\n}\nmodule M {\n    import P::{A, B, C,};\n    let _x: u32 = A + B + C;\n}\nmodule N {\n    import P::{\n        A,\n        B,\n    };\n    import P::{B, C};\n    let _y: u32 = A + B + C;\n}\n"),
     ("cat/interface_modport", "interface I {\n    var a: logic;\n    var b: logic;\n    modport m {\n        a: input,\n        b: output,\n    }\n    modport s { a: output, b: input }\n}\n"),
 ];
 
